@@ -4,7 +4,7 @@
    the model by the correspondence run (DESIGN.md §3 C01). *)
 From Coq Require Import String List NArith ZArith Bool.
 Import ListNotations.
-From STFS Require Import Str Db Tape Index Ops Fs Diff TapeLemmas Append.
+From STFS Require Import Str Db Tape Index Ops Fs Diff Norm TapeLemmas Append C01Fs2 C01Rows C01Counter.
 Open Scope N_scope.
 
 (* visible tree of a state, and of a tape replayed into a fresh index *)
@@ -34,8 +34,33 @@ Theorem C01_rebuild_ignores_index : forall c t p1 p2,
   index_tape c t 0 0 None true false p1 = index_tape c t 0 0 None true false p2.
 Proof. intros. unfold index_tape. reflexivity. Qed.
 
-Theorem C01_rebuild_prefix_stable : forall c h s, exists suf, tp (final c s h) = tp s ++ suf.
+Theorem C01_rebuild_prefix_stable : forall c h s, exists suf, tp (final c s h) = (tp s ++ suf)%list.
 Proof. intros c h s. exact (final_extends c h s). Qed.
+
+(* proved for EVERY history of filesystem-level calls (any length, any names, contents, clocks, header sizes
+   >= 1 block, record size): the index rebuilt from the tape alone holds exactly the rows of the running
+   instance (tombstones included), up to the spelling of names (the rebuild sees the cleaned name the tape
+   carries; norm_row drops the leading slash).  Hypotheses beyond the property's own quantifier:
+   plain configuration (no codec suffixes), header-block counts of at least one block (a tar header is never
+   empty), and two exclusions, each with a compiled counterexample or note in Proofs/C01Counter.v:
+   no Reopen after the root itself was removed, and no Rename onto the root. *)
+Theorem C01_rows_rebuilt_are_live_rows : forall c e r,
+  0 < c_rs c -> c_readonly c = false ->
+  c_csuf c = [] -> c_esuf c = [] ->
+  forallb hb_ok ((CInitialize [slash], e) :: r) = true ->
+  safe true r = true ->
+  forallb (fun ke => rename_ok (fst ke)) r = true ->
+  forallb (fun ke => fs_call (fst ke)) r = true ->
+  let s := final c init_sys ((CInitialize [slash], e) :: r) in
+  exists p, rebuild c (tp s) = (p, Ok tt) /\ rows p = map norm_row (rows (db s)).
+Proof. exact C01_rows_norm. Qed.
+
+(* the excluded corners are real: the conclusion fails there on the model (and, replayed by the harness, the
+   model agrees with the implementation on them) *)
+Theorem C01_excluded_corners :
+  (~ concl (cf "") ((CInitialize [slash], C01Counter.e0 1) :: r_b)) /\
+  (~ concl (cf "") ((CInitialize [slash], C01Counter.e0 1) :: r_c)).
+Proof. split; [exact (proj2 (proj2 counter_zero_header_blocks)) | exact (proj2 (proj2 (proj2 (proj2 counter_remove_root_reopen))))]. Qed.
 
 (* the statement holds on a concrete multi-step history with reuse of a deleted name, rename over
    it, content update and chmod (a test of the statement, not the proof) *)
@@ -54,3 +79,4 @@ Example C01_demo :
 Proof. vm_compute. repeat split; reflexivity. Qed.
 
 Print Assumptions C01_rebuild_prefix_stable.
+Print Assumptions C01_rows_rebuilt_are_live_rows.
